@@ -56,6 +56,7 @@ class Fn:
                                   # (it is the identical text proved against the real body in another unit)
     cut_before: str = None        # fragment extraction: keep the body up to (excluding) the statement starting with this text,
     cut_tail: str = ""            # ... and continue with this (opaque) tail expression; the dropped part is NOT verified
+    pre_rewrites: list = field(default_factory=list)   # site rewrites applied BEFORE the generic rules (to bring a construct into a rule's reach)
     cut_from: str = None          # fragment extraction: drop the body text before the statement starting with this text; the fragment
     sig: str = ""                 # ... becomes the body of a function with this synthetic signature (the dropped prefix's live variables
                                   # become parameters).  The dropped part is NOT verified.
@@ -373,6 +374,8 @@ def generate(unit: Unit, root, rules_mod):
             meta["rewrites"].append({"where": where, "kind": "fragment", "old": f"<signature and {orig_kept[:cut].count(chr(10))} lines before `{it.cut_from}`>",
                                      "new": it.sig, "count": 1})
             orig_kept = it.sig.rstrip() + " {\n" + orig_kept[cut:]
+        if it.pre_rewrites:
+            orig_kept = apply_site_rewrites(orig_kept, it.pre_rewrites, meta["rewrites"], where)
         t = rules_mod.apply_rules(orig_kept, rules, ctx, meta["rule_counts"], where)
         # loop ordinals and ghost anchors refer to the text after generic rules and site rewrites
         t = apply_site_rewrites(t, it.rewrites, meta["rewrites"], where)
